@@ -32,7 +32,14 @@ class Num:
         return self.frac == other.frac
 
     def __repr__(self):
-        return "Num(%s)" % (self.special or (str(self.frac) + ("i" if self.is_int else "")))
+        if self.special:
+            return "Num(%s)" % self.special
+        try:
+            if self.is_int and abs(self.frac) < 10 ** 40:
+                return "Num(%di)" % int(self.frac)
+            return "Num(%r)" % float(self.frac)
+        except (OverflowError, ValueError):
+            return "Num(<huge>)"
 
 
 def num_from_float(x):
@@ -58,10 +65,31 @@ def _json_pairs(pairs):
     return d
 
 
+def safe_fraction(s):
+    """Fraction of a decimal text, refusing exponents that leave the double range (decoders
+    legitimately differ there: overflow to inf vs error)"""
+    m = re.search(r"[eE]([-+]?[0-9]+)$", s)
+    if (m and abs(int(m.group(1))) > 330) or len(s) > 400:
+        raise DecodeError("unsupported value type: number outside the double range")
+    f = Fraction(s)
+    try:
+        if math.isinf(float(f)):
+            raise OverflowError()
+    except OverflowError:
+        raise DecodeError("unsupported value type: number outside the double range")
+    return f
+
+
+def _json_int(s):
+    if len(s) > 400:
+        raise DecodeError("unsupported value type: number outside the double range")
+    return Num(Fraction(int(s)), is_int=True)
+
+
 def decode_json(text):
     try:
         return json.loads(text, parse_constant=_json_const, object_pairs_hook=_json_pairs,
-                          parse_float=lambda s: Num(Fraction(s)), parse_int=lambda s: Num(Fraction(int(s)), is_int=True))
+                          parse_float=lambda s: Num(safe_fraction(s)), parse_int=_json_int)
     except DecodeError:
         raise
     except (ValueError, RecursionError) as e:
@@ -118,13 +146,15 @@ def resolve_plain(s, stats=None):
     if Y_BOOL.match(s):
         return s.lower() == "true"
     if Y_INT.match(s):
+        if len(s) > 400:
+            raise DecodeError("unsupported value type: number outside the double range")
         return Num(Fraction(int(s)), is_int=True)
     if Y_OCT.match(s):
         return Num(Fraction(int(s[2:], 8)), is_int=True)
     if Y_HEX.match(s):
         return Num(Fraction(int(s[2:], 16)), is_int=True)
     if Y_FLOAT.match(s):
-        return Num(Fraction(s))
+        return Num(safe_fraction(s))
     if Y_INF.match(s):
         return Num(special="-inf" if s.startswith("-") else "inf")
     if Y_NAN.match(s):
@@ -156,13 +186,10 @@ def _yaml_docs(text, stats=None):
                 raise DecodeError("yaml: unknown alias")
             return anchors[ev.anchor]
         if isinstance(ev, yaml.ScalarEvent):
-            if ev.tag is not None and ev.tag not in ("tag:yaml.org,2002:str",) and not (ev.implicit[0] or ev.implicit[1]):
+            if ev.tag is not None:
                 if stats is not None:
                     stats["yaml_explicit_tags"] = stats.get("yaml_explicit_tags", 0) + 1
-                if ev.tag in ("tag:yaml.org,2002:int", "tag:yaml.org,2002:float", "tag:yaml.org,2002:bool", "tag:yaml.org,2002:null"):
-                    v = resolve_plain(ev.value, stats)
-                else:
-                    raise DecodeError("yaml: explicit tag %s" % ev.tag)
+                raise DecodeError("yaml: explicit tag %s" % ev.tag)
             elif ev.style in (None, "") and ev.implicit[0]:
                 v = resolve_plain(ev.value, stats)
             else:
@@ -170,6 +197,8 @@ def _yaml_docs(text, stats=None):
             if ev.anchor:
                 anchors[ev.anchor] = v
             return v
+        if isinstance(ev, (yaml.SequenceStartEvent, yaml.MappingStartEvent)) and ev.tag is not None and not ev.implicit:
+            raise DecodeError("yaml: explicit tag %s" % ev.tag)
         if isinstance(ev, yaml.SequenceStartEvent):
             out = []
             if ev.anchor:
